@@ -345,6 +345,13 @@ def oracle_c04(case, out):
         res, err = parse_responses(data, allow_headless_body=has_head, truncated_ok=True)
         if err:
             return "c%d wrote bytes that are not well-formed HTTP/1.1: %s\n  stream: %r" % (c, err, data[:300])
+        # the ONLY request this connection ever received is a HEAD request (valid or not): whatever the server answered —
+        # the application's response or the library's own error response — answers a HEAD request and carries no body
+        if rx.startswith(b"HEAD ") and rx.count(b"HTTP/1.") == 1 and b"\r\n\r\n" in rx and rx.index(b"\r\n\r\n") + 4 == len(rx):
+            for r in res:
+                if r["status"] >= 200 and r["body"]:
+                    return ("c%d: the response %d to a HEAD request (the only request on the connection) carries the body %r: "
+                            "bytes outside the message structure" % (c, r["status"], r["body"][:60]))
     return None
 
 
